@@ -181,18 +181,19 @@ PYRAMID_WRITERS = {
 }
 
 
-def pyramid_writers_rule(ck, P, rule="R-COVER-WRITERS"):
+def pyramid_writers_rule(ck, P, rule="R-COVER-WRITERS", table=None, what_="accumulation of stored tiles", floor=8, consequence="the advertised coverage is no longer the bounding boxes of the stored tiles"):
     """who may modify the coverage a container reader advertises: only the accumulation of stored tiles (include_coord / include_bbox /
     set_level_bbox + the one TMS flip).  Any other `&mut` use of a TileBBoxPyramid in the reader modules (an intersection with a
     declared bounding box, a zoom limit, a clear) makes the advertised coverage differ from the stored tiles."""
+    table = PYRAMID_WRITERS if table is None else table
     seen = 0
     files = set()
     for b in P.bodies:
         f = b["s"][0]
-        if f not in PYRAMID_WRITERS:
+        if f not in table or "::tests::" in b["q"]:
             continue
         files.add(f)
-        allowed = PYRAMID_WRITERS[f]
+        allowed = table[f]
 
         def is_pyr(n):
             t = (n.get("t") or "")
@@ -219,11 +220,11 @@ def pyramid_writers_rule(ck, P, rule="R-COVER-WRITERS"):
             if what is None:
                 continue
             seen += 1
-            ck.check(what in allowed, rule, "%s|%s" % (b["q"], what), "%s: the pyramid is modified by %s (accumulation of stored tiles)" % (f.rsplit("container/", 1)[-1], what),
-                     "%s modifies a coverage pyramid with `%s`, which is not one of the accumulation steps %s of this reader: the advertised coverage is no longer the bounding boxes of the stored tiles" %
-                     (b["q"], what, sorted(allowed)), ir.loc(n))
-    ck.anchor(rule, "reader modules", sorted(files), len(PYRAMID_WRITERS))
-    ck.anchor(rule, "pyramid modifications in reader modules", list(range(seen)), 8)
+            ck.check(what in allowed, rule, "%s|%s" % (b["q"], what), "%s: the pyramid is modified by %s (%s)" % (f.rsplit("container/", 1)[-1], what, what_),
+                     "%s modifies a pyramid with `%s`, which is not one of the steps %s allowed here (%s): %s" %
+                     (b["q"], what, sorted(allowed), what_, consequence), ir.loc(n))
+    ck.anchor(rule, "modules", sorted(files), len(table))
+    ck.anchor(rule, "pyramid modifications in these modules", list(range(seen)), floor)
 
 
 def rules(ck, P):
